@@ -10,11 +10,16 @@ spec/AsNumTrace.tla:
                                                                          salt=salt, as_numbers=list)
     ["anon", inst, [numbers], learn]        AsNumberAnonymizer.anonymize(n) for each n (kind "class")
     ["line", inst, text]                    anonymize_as_numbers(a, text) / FileAnonymizer.anonymize_io
+                                            (text may be {"out": k}: the output of the k-th operation)
+  further kinds: "fileip" (as_numbers + anon_ip=True), "fileundo" (as_numbers + undo_ip_anon=True),
+  "iponly" (anon_ip=True, no AS numbers); their lines reach TLC with address tokens projected to a
+  placeholder (see codes_projected).
 
 Nothing here decides anything: text becomes character codes, numbers become
 digit lists, exceptions become outcomes; TLC judges.
 """
 import io
+import ipaddress
 import json
 import logging
 import re
@@ -60,7 +65,47 @@ def construct(kind, lst, salt):
         from netconan.sensitive_item_removal import AsNumberAnonymizer
         return AsNumberAnonymizer(list(lst), salt)
     from netconan.anonymize_files import FileAnonymizer
+    if kind == "fileip":        # AS numbers together with the address stage (-a)
+        return FileAnonymizer(anon_pwd=False, anon_ip=True, salt=salt, as_numbers=list(lst))
+    if kind == "fileundo":      # AS numbers together with address undo (--undo)
+        return FileAnonymizer(anon_pwd=False, anon_ip=False, undo_ip_anon=True, salt=salt, as_numbers=list(lst))
+    if kind == "iponly":        # address stage only, no AS numbers (produces already-anonymized text)
+        return FileAnonymizer(anon_pwd=False, anon_ip=True, salt=salt)
     return FileAnonymizer(anon_pwd=False, anon_ip=False, salt=salt, as_numbers=list(lst))
+
+
+# ---- projection of address tokens (runs with the address stage on) ----------
+# C11 speaks about digit runs OUTSIDE addresses; what the address stage does to an address is
+# C01-C06's business.  For instances whose address stage is on, every address token of the input
+# line AND of the output line is replaced by ONE placeholder code before TLC sees the line, so R's
+# existing clauses judge exactly the rest of the line (and the digit '.' digit don't-care of R is
+# not triggered by dotted quads).  An address token is: a white-space delimited token, minus
+# trailing ',' / ';' and minus a '/suffix', that `ipaddress.ip_address` accepts (so the numbers
+# between the dots are <= 255 and a listed number of 5+ digits can never be part of one).
+# The generator writes addresses only as such tokens.
+ADDR = 1500000
+PROJECTING = ("fileip", "fileundo", "iponly")
+
+
+def _is_addr(tok):
+    if not tok or not (tok.count(".") == 3 or ":" in tok):
+        return False
+    try:
+        ipaddress.ip_address(tok)
+        return True
+    except ValueError:
+        return False
+
+
+def codes_projected(text):
+    out = []
+    pos = 0
+    for m in re.finditer(r"\S+", text):
+        head = m.group(0).rstrip(",;").split("/")[0]
+        if _is_addr(head):
+            out += codes(text[pos:m.start()]) + [ADDR]
+            pos = m.start() + len(head)
+    return out + codes(text[pos:])
 
 
 class _Capture(logging.Handler):
@@ -110,6 +155,7 @@ def execute(ops, insts=None):
     """Run a script; returns the list of events (exactly one per operation)."""
     insts = {} if insts is None else insts
     evs = []
+    raw_out = {}
     for op in ops:
         what = op[0]
         if what == "new":
@@ -166,8 +212,14 @@ def execute(ops, insts=None):
             evs.append(ev)
         elif what == "line":
             _, i, text = op
+            if isinstance(text, dict):           # {"out": k}: the raw output of the k-th operation of this script
+                text = raw_out[text["out"]]
             kind, obj = insts[i]
-            ev = {"ev": "line", "inst": i, "in": codes(text), "out": [], "outcome": "ok"}
+            enc = codes_projected if kind in PROJECTING else codes
+            ev = {"ev": "line", "inst": i, "in": enc(text), "out": [], "outcome": "ok"}
+            if kind in PROJECTING:
+                ev["raw_in"] = text
+            raw_out[len(evs)] = text
             if obj is None:
                 ev["out"] = ev["in"]
             else:
@@ -175,7 +227,10 @@ def execute(ops, insts=None):
                     r = run_line(kind, obj, text)
                     if not isinstance(r, str):
                         raise TypeError("returned %s" % type(r).__name__)
-                    ev["out"] = codes(r)
+                    ev["out"] = enc(r)
+                    raw_out[len(evs)] = r
+                    if kind in PROJECTING:
+                        ev["raw_out"] = r
                 except Exception as e:
                     ev["outcome"] = _outcome(e)
                     ev["what"] = repr(e)[:200]
